@@ -922,7 +922,8 @@ fn read_variables(cur: &mut SourceCursor, song: &mut Song, name: &str, sval: SVa
                 tok.lineno = cur.line;
                 return tok;
             } else {
-                let tok = Token::new(TokenType::Value, LEX_VALUE, vec![SValue::from_s(format!("={}", name))]);
+                let mut tok = Token::new(TokenType::Value, LEX_VALUE, vec![SValue::from_s(format!("={}", name))]);
+                tok.lineno = cur.line; // entries logged while the text is expanded carry the line of this use (as with arguments)
                 return tok;
             }
         }
